@@ -176,6 +176,7 @@ impl ISocketConnection for UringFdConnection {
     let req = UringOpRequest::ShutdownConnectionHandler {
       user_data: unique_user_data,
       fd: self.fd,
+      conn_token: 0,
       reply_tx,
     };
     
